@@ -15,7 +15,8 @@ if [ "$1" = "--one" ]; then
     out=$(VERIF_REPO=$tree VERIF_NO_EVIDENCE=1 VERIF_REPLAY_DIR=$rp $V/check $prop --tier quick 2>&1)
     rc=$?
     rule=$(printf "%s" "$out" | grep -a -m1 "^  rule=" | cut -c1-100)
-    if [ $rc -eq 1 ]; then echo "$id CAUGHT $rule"; elif [ $rc -eq 0 ]; then echo "$id MISSED"; else echo "$id HARNESS rc=$rc"; fi
+    verdict=$(python3 -c "import json;print(json.load(open('$d/meta.json')).get('verdict',''))")
+    if [ $rc -eq 1 ]; then echo "$id CAUGHT $rule"; elif [ $rc -eq 0 ] && [ "$verdict" = "not-caught" ]; then echo "$id NOT-CAUGHT (as recorded, see DESIGN.md 11.6)"; elif [ $rc -eq 0 ]; then echo "$id MISSED"; else echo "$id HARNESS rc=$rc"; fi
     rm -rf $tree $rp
     exit 0
 fi
